@@ -207,7 +207,8 @@ class FortranReader:
 
     def __init__(self, raw_source):
         self.line_offset = 0
-        raw_source = raw_source.strip()
+        # Keep leading (blank) lines: line numbers are counted from the start of the given string
+        raw_source = raw_source.rstrip()
         self.source_lines = raw_source.splitlines()
         self._sanitize_raw_source(raw_source)
 
